@@ -392,3 +392,16 @@ def run(repo: Repo, rep: Report) -> None:  # noqa: F811
         early = any(isinstance(r, ast.Return) for r in ast.walk(l))
         rep.ob("C04.j-logical-and-stops-at-the-first-false", op, "ConditionalAndExpression", "for %s in ...: return on false" % norm(l.target), early,
                "" if early else "the loop over the operands never returns early", node=l)
+
+
+_run_base3 = run
+
+
+def run(repo: Repo, rep: Report) -> None:  # noqa: F811
+    _run_base3(repo, rep)
+    from vlib import argswap
+
+    rep.rule("C04.k-no-swapped-arguments-in-the-evaluator",
+             "in rdflib/plugins/sparql a call that passes two local names which are also parameter names of the resolved callee passes each at its own parameter's position "
+             "(ctx/part, a/b, p1/p2 ... have the same types, so the type checker cannot see an exchange)", floor=20)
+    argswap.scan(repo, rep, "C04.k-no-swapped-arguments-in-the-evaluator", sorted(m for m in repo.modules if m.startswith("rdflib.plugins.sparql.")))
